@@ -43,7 +43,8 @@ try:
     verdicts = {}
     for c in (a.checks or a.prop).split(","):
         for seed in a.seeds.split(","):
-            e = dict(os.environ, VERIF_REPO=tree, VERIF_SEED=seed)
+            e = dict(os.environ, VERIF_REPO=tree, VERIF_SEED=seed, VERIF_EVIDENCE_DIR=os.path.join(shadow_root, "ev"),
+                     VERIF_REPLAY_DIR=os.path.join(shadow_root, "rp"))
             r = sh("./check", c, env=e, cwd=V)
             lines = [l for l in r.stdout.splitlines() if l.startswith(("VIOLATION", "  [", "[C"))]
             verdicts[f"{c}@seed{seed}"] = {"exit": r.returncode, "lines": [l[:300] for l in lines[:6]]}
@@ -54,8 +55,6 @@ try:
 finally:
     sh("git", "-C", "/repo", "worktree", "remove", "--force", tree)
     shutil.rmtree(shadow_root, ignore_errors=True)
-    # mutant runs overwrite evidence files: restore the committed ones
-    sh("git", "-C", V, "checkout", "--", "evidence")
 if meta.get("confirmed"):
     d = os.path.join(V, "seeded", a.sid); os.makedirs(d, exist_ok=True)
     shutil.copy(a.patch, os.path.join(d, "patch.diff")); shutil.copy(a.demo, os.path.join(d, "demo.py"))
